@@ -11,6 +11,7 @@ From VL Require Model.Convert Model.STV Proofs.STVScale_proofs.
 From VL Require Prelude.Sx Prelude.GDict Model.Bucklin Model.Cardinal Proofs.Scale2_proofs Proofs.Scale2Add_proofs Proofs.Scale2Bucklin_proofs
      Proofs.Scale2PAV_proofs Proofs.Scale2Score_proofs Proofs.Scale2MJ_proofs Proofs.Scale2Complete_proofs.
 From VL Require Model.Threshold Model.Conditioned Model.Star Proofs.ScaleThr_proofs Proofs.ScaleStar_proofs.
+From VL Require Model.Hybrids Model.Elimination Model.AllocScore Model.PureProp Proofs.ScaleHyb_proofs Proofs.ScaleAlloc_proofs Proofs.ScalePP_proofs.
 Import ListNotations.
 
 (* plurality / every rule that ends in get_n_best of exact totals *)
@@ -721,6 +722,105 @@ Example C11_star_example :
   Cardinal.score_voting Star.star_cfg votes 1 = inl [Cand a].
 Proof. vm_compute. repeat split; reflexivity. Qed.
 
+(* ================================================================ fourth batch: the rest of the registry (harness/evalreg.py) *)
+(* ---- RankedToCondorcetVotes in its pairwise-dictionary form (Model/Hybrids.v pairwise; integer ballot weights, positive
+   integer factor): the pairwise dictionary of the k-fold profile is the k-fold dictionary - same keys, same order.  With
+   the theorems about the evaluators on k-fold dictionaries this closes every composed entry "ranked votes ->
+   RankedToCondorcetVotes -> Condorcet evaluator" of the registry: *)
+Theorem C11_scale_ranked_to_condorcet : forall (k : Z) (votes : Hybrids.rvotes), (0 < k)%Z ->
+  Hybrids.pairwise (map (fun bn => (fst bn, (k * snd bn)%Z)) votes) = scalez k (Hybrids.pairwise votes).
+Proof. intros k votes Hk. exact (ScaleHyb_proofs.pairwise_scale k votes). Qed.
+
+Theorem C11_scale_ranked_condorcet_family : forall (k : Z) (votes : Hybrids.rvotes), (0 < k)%Z ->
+  let votes' := map (fun bn : Convert.ranked * Z => (fst bn, (k * snd bn)%Z)) votes in
+  condorcet_winner (Hybrids.pairwise votes') = condorcet_winner (Hybrids.pairwise votes) /\
+  (forall so n, copeland so (Hybrids.pairwise votes') n = copeland so (Hybrids.pairwise votes) n) /\
+  (forall ties, smith_schwartz (Hybrids.pairwise votes') ties = smith_schwartz (Hybrids.pairwise votes) ties) /\
+  (forall s n, minimax s (Hybrids.pairwise votes') n = minimax s (Hybrids.pairwise votes) n) /\
+  (forall n, schulze (Hybrids.pairwise votes') (candidates (Hybrids.pairwise votes')) n
+             = schulze (Hybrids.pairwise votes) (candidates (Hybrids.pairwise votes)) n) /\
+  (forall s n, ranked_pairs s (Hybrids.pairwise votes') n = ranked_pairs s (Hybrids.pairwise votes) n) /\
+  (forall n, kemeny (Hybrids.pairwise votes') n = kemeny (Hybrids.pairwise votes) n).
+Proof.
+  intros k votes Hk votes'. unfold votes'. rewrite (C11_scale_ranked_to_condorcet k votes Hk).
+  split; [apply C11_scale_condorcet_winner, Hk|]. split; [intros; apply C11_scale_copeland, Hk|].
+  split; [intros; apply C11_scale_smith_schwartz, Hk|]. split; [intros; apply C11_scale_minimax, Hk|].
+  split; [intros; rewrite (candidates_scale k); apply C11_scale_schulze, Hk|].
+  split; [intros; apply C11_scale_ranked_pairs, Hk|intros; apply C11_scale_kemeny, Hk].
+Qed.
+
+(* ---- the Condorcet-runoff hybrids (Model/Hybrids.v) and the positional elimination (Model/Elimination.v): Benham,
+   Tideman's alternative, Baldwin with any rank scorer - every elimination round, the merging of ballots that become equal,
+   every refusal and error outcome; both readings of the elimination step ([fx]) *)
+Theorem C11_scale_benham : forall (k : Z) fx (votes : Hybrids.rvotes), (0 < k)%Z ->
+  Hybrids.benham fx (map (fun bn => (fst bn, (k * snd bn)%Z)) votes) = Hybrids.benham fx votes.
+Proof. intros k fx votes Hk. exact (ScaleHyb_proofs.benham_scale k Hk fx votes). Qed.
+
+Theorem C11_scale_tideman_alternative : forall (k : Z) fx (votes : Hybrids.rvotes) n, (0 < k)%Z ->
+  Hybrids.tideman_alt fx (map (fun bn => (fst bn, (k * snd bn)%Z)) votes) n = Hybrids.tideman_alt fx votes n.
+Proof. intros k fx votes n Hk. exact (ScaleHyb_proofs.tideman_alt_scale k Hk fx votes n). Qed.
+
+Theorem C11_scale_baldwin : forall (k : Z) (sc : Convert.scorer) (votes : Hybrids.rvotes) n, (0 < k)%Z ->
+  Elimination.baldwin sc (map (fun bn => (fst bn, (k * snd bn)%Z)) votes) n = Elimination.baldwin sc votes n.
+Proof. intros k sc votes n Hk. exact (ScaleHyb_proofs.baldwin_scale k Hk sc votes n). Qed.
+
+Theorem C11_scale_eliminate_one : forall (k : Z) (votes : Hybrids.rvotes), (0 < k)%Z ->
+  Hybrids.eliminate_one (map (fun bn => (fst bn, (k * snd bn)%Z)) votes) = Hybrids.eliminate_one votes.
+Proof. intros k votes Hk. exact (ScaleHyb_proofs.eliminate_one_scale k Hk votes). Qed.
+
+(* ---- allocated score voting (Model/AllocScore.v; ballot weights are rationals, any positive rational factor): a homogeneous
+   named quota (Hare, Hagenbach-Bischoff, Imperiali) or a constant quota scaled with the votes; the distributor with previous
+   gains and maxima, and the selector; every iteration order of the tied sets, every error outcome *)
+Theorem C11_scale_allocated_score_distributor : forall (k : Q) (q : Quota.quota_spec) orders (votes : AllocScore.wprofile) n prev mx,
+  (0 < k)%Q -> ScaleAlloc_proofs.qspec_homog q = true ->
+  AllocScore.alloc_distribute (ScaleAlloc_proofs.qspec_scale k q) orders (map (fun bw => (fst bw, (k * snd bw)%Q)) votes) n prev mx
+  = AllocScore.alloc_distribute q orders votes n prev mx.
+Proof.
+  intros k q orders votes n prev mx Hk Hq.
+  exact (ScaleAlloc_proofs.alloc_distribute_rel k Hk q orders _ _ n prev mx Hq (ScaleAlloc_proofs.wprel_scale k votes)).
+Qed.
+
+Theorem C11_scale_allocated_score : forall (k : Q) (i : Z) orders (votes : AllocScore.wprofile) n, (0 < k)%Q ->
+  homogeneous_quota i = true ->
+  AllocScore.alloc_select (QNamed i) orders (map (fun bw => (fst bw, (k * snd bw)%Q)) votes) n
+  = AllocScore.alloc_select (QNamed i) orders votes n.
+Proof.
+  intros k i orders votes n Hk Hi.
+  exact (ScaleAlloc_proofs.alloc_select_rel k Hk (QNamed i) orders _ _ n Hi (ScaleAlloc_proofs.wprel_scale k votes)).
+Qed.
+
+(* ---- PureProportionality (Model/PureProp.v): the fractional seats are shares of the house; previous gains as floors and
+   maxima as ceilings, the ZeroDivisionError included *)
+Theorem C11_scale_pure_proportionality : forall (k : Q) (votes : list (C * Q)) n prev caps, (0 < k)%Q ->
+  PureProp.pp_evaluate (scaleq k votes) n prev caps = PureProp.pp_evaluate votes n prev caps.
+Proof. intros k votes n prev caps Hk. exact (ScalePP_proofs.pp_evaluate_scale k Hk votes n prev caps). Qed.
+
+(* ---- non-vacuity of the fourth batch.  Benham: a three-way cycle, no Condorcet winner, the plurality loser C goes and A beats
+   B; Baldwin (Borda) eliminates two rounds; both at k = 10^30 + 7.  Allocated score, two seats, Hare quota, at (10^30 + 7) / 3:
+   the strongest supporters of the first winner are spread out.  Pure proportionality of 7 seats over 1 : 2 : 4 with a maximum
+   of 3 for the largest party, at (10^30 + 7) / 3: 4/3, 8/3, 3. *)
+Example C11_hybrids_example :
+  let a := 1%positive in let b := 2%positive in let c := 3%positive in
+  let K := 1000000000000000000000000000007%Z in
+  let votes : Hybrids.rvotes := [([Convert.IP a; Convert.IP b; Convert.IP c], 4%Z); ([Convert.IP b; Convert.IP c; Convert.IP a], 3%Z);
+                                 ([Convert.IP c; Convert.IP a; Convert.IP b], 2%Z)] in
+  let votes' := map (fun bn : Convert.ranked * Z => (fst bn, (K * snd bn)%Z)) votes in
+  condorcet_winner (Hybrids.pairwise votes) = [] /\
+  Hybrids.benham true votes' = Hybrids.H_ok [Cand a] /\ Hybrids.benham true votes = Hybrids.H_ok [Cand a] /\
+  Hybrids.tideman_alt true votes' 1 = Hybrids.H_ok [Cand a] /\
+  Elimination.baldwin (Convert.Borda 0) votes' 1 = Elimination.B_ok [Cand a] /\
+  Elimination.baldwin (Convert.Borda 0) votes 1 = Elimination.B_ok [Cand a].
+Proof. vm_compute. repeat split; reflexivity. Qed.
+
+Example C11_allocated_pure_example :
+  let a := 1%positive in let b := 2%positive in let c := 3%positive in
+  let K := (1000000000000000000000000000007 # 3)%Q in
+  let votes : AllocScore.wprofile := [([(a, 5); (b, 1); (c, 0)], 4); ([(a, 3); (b, 4); (c, 1)], 3); ([(a, 0); (b, 2); (c, 5)], 3)]%Q in
+  AllocScore.alloc_select (QNamed 1) [] (map (fun bw : Convert.sballot * Q => (fst bw, (K * snd bw)%Q)) votes) 2 = inl [Cand a; Cand c] /\
+  AllocScore.alloc_select (QNamed 1) [] votes 2 = inl [Cand a; Cand c] /\
+  PureProp.pp_evaluate (scaleq K [(a, 1); (b, 2); (c, 4)]%Q) 7 [] [(c, 3%Z)] = PureProp.PP_ok [(c, 3); (a, 4 # 3); (b, 8 # 3)]%Q.
+Proof. vm_compute. repeat split; reflexivity. Qed.
+
 Print Assumptions C11_scale_plurality.
 Print Assumptions C11_scale_highest_averages.
 Print Assumptions C11_scale_pairwise_wins.
@@ -783,3 +883,12 @@ Print Assumptions C11_scale_open_list_named.
 Print Assumptions C11_scale_star.
 Print Assumptions C11_scale_star_auto.
 Print Assumptions C11_scale_star_pairwise.
+Print Assumptions C11_scale_ranked_to_condorcet.
+Print Assumptions C11_scale_ranked_condorcet_family.
+Print Assumptions C11_scale_benham.
+Print Assumptions C11_scale_tideman_alternative.
+Print Assumptions C11_scale_baldwin.
+Print Assumptions C11_scale_eliminate_one.
+Print Assumptions C11_scale_allocated_score_distributor.
+Print Assumptions C11_scale_allocated_score.
+Print Assumptions C11_scale_pure_proportionality.
